@@ -119,7 +119,9 @@ def plan(tier: str) -> Dict[str, Any]:
 
 def gen_fspec(rng) -> Dict[str, Any]:
     s = dict(rng.choice(SIGS))
-    s["behav"] = rng.choice(("first", "const", "shape"))
+    s["behav"] = rng.choice(("first", "const", "shape", "shape", "reenter", "poke"))
+    if s["behav"] == "reenter":
+        s["rq"] = rng.choice(("$..a", "$[?@.a]", "$..[?@ > 1]", "$.b.*"))
     return s
 
 
@@ -361,7 +363,7 @@ def gen_history(rng, faults: bool) -> Dict[str, Any]:
             ops.append({"op": "compile", "id": cid, "env": rng.choice(envs), "q": rng.choice(qpool)})
             compiled.append(cid)
         elif r < 0.62 and compiled:
-            ops.append({"op": "apply", "c": rng.choice(compiled), "doc": rng.choice(docs), "entry": rng.choice(ENTRIES), "copy": "copy" in enabled and rng.random() < 0.2})
+            ops.append({"op": "apply", "c": rng.choice(compiled), "doc": rng.choice(docs), "entry": rng.choice(ENTRIES), "copy": "copy" in enabled and rng.random() < 0.2, "scribble": rng.random() < 0.15})
         elif r < 0.76 and ("env_call" in enabled or "module_call" in enabled):
             if "module_call" in enabled and ("env_call" not in enabled or rng.random() < 0.4):
                 e = "module"
